@@ -168,7 +168,7 @@ theorem convFt_r2 : ∀ (a : AFt) (fuel : Nat), a.depth ≤ fuel → convFt fuel
     obtain ⟨f, rfl⟩ := fuel_succ (n := fuel) (by simp [AFt.depth] at h; omega)
     have hf := convFields_r2 fs f (by simp [AFt.depth] at h; omega)
     cases ma <;>
-      simp [AFt.r2, AFt.r3, convFt, asMap, req, bind, Except.bind, kvGet, kvSet, copyProp, optE, hf]
+      simp [AFt.r2, AFt.r3, convFt, asMap, req, bind, Except.bind, kvGet, kvGetNN, kvSet, copyProp, optE, hf]
 theorem convFields_r2 : ∀ (fs : List (String × AFt)) (fuel : Nat), AFt.depthFields fs ≤ fuel →
     (AFt.r2Fields fs).mapM (convField (convFt fuel)) = .ok (AFt.r3Members fs)
   | [], _, _ => by simp [AFt.r2Fields, AFt.r3Members, pure, Except.pure]
